@@ -310,11 +310,21 @@ def LResp.flags (r : LResp) : Nat :=
   (if r.tracing.isSome then 0x02 else 0) + (if r.payload.isSome then 0x04 else 0) +
   (if r.warnings.isSome then 0x08 else 0) + (if r.beta then 0x10 else 0)
 
+def eTracing : Option Bytes → Bytes
+  | some t => t
+  | none => []
+
+def eWarnings : Option (List Bytes) → Bytes
+  | some w => eStringList w
+  | none => []
+
+def ePayload : Option (List (Bytes × Option Bytes)) → Bytes
+  | some p => eBytesMap p
+  | none => []
+
 /-- the frame body: `[tracing id][warnings string list][custom payload bytes map]<message>` -/
 def encodeBody (v : Nat) (r : LResp) : Bytes :=
-  (match r.tracing with | some t => t | none => []) ++
-  ((match r.warnings with | some w => eStringList w | none => []) ++
-  ((match r.payload with | some p => eBytesMap p | none => []) ++ eMsg v r.body))
+  eTracing r.tracing ++ (eWarnings r.warnings ++ (ePayload r.payload ++ eMsg v r.body))
 
 /-- `byte(stream)` bytes of a stream id: 1 signed byte in v1/v2, 2 in v3+ -/
 def eStream (v : Nat) (s : Int) : Bytes :=
@@ -450,12 +460,13 @@ def viewBody (v : Nat) : Body → Frame
 def view (v : Nat) (r : LResp) : Resp :=
   { traceId := r.tracing, warnings := r.warnings, payload := r.payload, frame := viewBody v r.body }
 
-/-- what is left in the buffer after the frame has been parsed: the rows of a RESULT/Rows, which
-    the iterator reads later -/
-def restOf (r : LResp) : Bytes :=
-  match r.body with
+def restOfBody : Body → Bytes
   | .result (.rows _ rs) => eRows rs
   | _ => []
+
+/-- what is left in the buffer after the frame has been parsed: the rows of a RESULT/Rows, which
+    the iterator reads later -/
+def restOf (r : LResp) : Bytes := restOfBody r.body
 
 /-- the header fields the driver reads off the wire for `encodeFrame v r` -/
 def hdr (v : Nat) (r : LResp) : Header :=
@@ -559,8 +570,9 @@ def wfResult (v : Nat) : Result → Bool
   | .void => true
   | .rows m rs => wfMeta m && rs.length < 2147483648
   | .setKeyspace ks => fitsShort ks
-  | .prepared id pk req resp => fitsShort id && wfMeta req && pk.length < 2147483648 && pk.all isShort &&
-      (match resp with | some m => v ≥ 2 && wfMeta m | none => v < 2)
+  | .prepared id pk req (some m) => fitsShort id && wfMeta req && pk.length < 2147483648 && pk.all isShort &&
+      (v ≥ 2 && wfMeta m)
+  | .prepared id pk req none => fitsShort id && wfMeta req && pk.length < 2147483648 && pk.all isShort && v < 2
   | .schemaChange sc => wfSchemaChange v sc
 
 def wfEvent (v : Nat) : Event → Bool
@@ -579,24 +591,32 @@ def wfBody (v : Nat) : Body → Bool
   | .authChallenge t => optFitsInt t
   | .authSuccess t => optFitsInt t
 
+def wfTracing : Option Bytes → Bool
+  | some t => t.length == 16
+  | none => true
+
+def wfWarnings : Option (List Bytes) → Bool
+  | some w => isShort w.length && w.all fitsShort
+  | none => true
+
+def wfPayload : Option (List (Bytes × Option Bytes)) → Bool
+  | some p => isShort p.length && p.all (fun kv => fitsShort kv.1 && optFitsInt kv.2) && decide ((p.map (·.1)).Nodup)
+  | none => true
+
 /-- well-formed response for protocol version `v` (1..5) -/
 def wf (v : Nat) (r : LResp) : Bool :=
-  (1 ≤ v && v ≤ 5) &&
-  (match r.tracing with | some t => t.length == 16 | none => true) &&
-  (match r.warnings with | some w => isShort w.length && w.all fitsShort | none => true) &&
-  (match r.payload with
-   | some p => isShort p.length && p.all (fun kv => fitsShort kv.1 && optFitsInt kv.2) && decide ((p.map (·.1)).Nodup)
-   | none => true) &&
-  wfBody v r.body
+  (1 ≤ v && v ≤ 5) && wfTracing r.tracing && wfWarnings r.warnings && wfPayload r.payload && wfBody v r.body
 
 def noCollClassMeta (m : Meta) : Bool := noCollClassCols m.cols
 
-/-- the exclusion of the `_partial` theorem lifted to a response -/
-def noCollClassResp (r : LResp) : Bool :=
-  match r.body with
+def noCollClassBody : Body → Bool
   | .result (.rows m _) => noCollClassMeta m
-  | .result (.prepared _ _ req resp) => noCollClassMeta req && (match resp with | some m => noCollClassMeta m | none => true)
+  | .result (.prepared _ _ req (some m)) => noCollClassMeta req && noCollClassMeta m
+  | .result (.prepared _ _ req none) => noCollClassMeta req
   | _ => true
+
+/-- the exclusion of the `_partial` theorem lifted to a response -/
+def noCollClassResp (r : LResp) : Bool := noCollClassBody r.body
 
 /-- the spec's per-version constraints that the decode theorem does NOT need (the parser is driven by
     the flags, not by the version): warnings / custom payload only from v4, beta flag only in v5,
